@@ -7,7 +7,7 @@ PROP = {
     "allowed_axioms": [],
     "harness": "c04",
     "modelrun": {"name": "c04", "extracted": ["c04_model"], "driver": "ocaml/c04/c04_run.ml"},
-    "tiers": {"quick": {"cases": 6000}, "thorough": {"cases": 120000}},
+    "tiers": {"quick": {"cases": 8000}, "thorough": {"cases": 300000}},
     "search_cases": 20000,
     "rule": "histories of 10-60 operations (add/remove/replace path, register with BestOnly/EcmpOnly/MaxPaths 0..7, "
             "unregister, refresh) over <=3 prefixes and <=5 clients, paths ranked by LOCAL_PREF with equal-LOCAL_PREF "
